@@ -456,7 +456,7 @@ class Sym:
         self.uid += 1
         fid = self.uid
         saved = st.frames
-        st.frames = st.frames + ((fid, {"output": None, "path": "<closure>", "body": node["body"]}, tuple(cap_frames)),)
+        st.frames = st.frames + ((fid, {"output": node["body"].get("ty_adj") or node["body"].get("ty"), "path": "<closure>", "body": node["body"]}, tuple(cap_frames)),)
         if cap_frames:
             self.frame_parent[fid] = cap_frames[-1][0]
         states = [st]
